@@ -8,7 +8,7 @@ from hugr.hugr import Hugr
 from hugr.hugr.node_port import InPort, Node, OutPort
 
 from vrf.harness import store
-from vrf.harness.c02 import deletion_masks, holey_hugr, live_links
+from vrf.harness.c02 import ARITY, deletion_masks, holey_hugr, live_links
 from vrf.harness.common import port_lists, same_structure, structure
 from vrf.lemma import P, lemma
 from vrf.symx import sym
@@ -31,20 +31,23 @@ def insert_hugr_is_isomorphic_embedding(dels):
             blinks.append(store.Link(sym.bool("bl.dup"), l0.a, l0.o, l0.b, l0.q))
     else:
         blinks = live_links(3, live, tag="bl", max_off=None)
-    store.attach_links(b, blinks, {i: 2 for i in live if i != 0})
+    store.attach_links(b, blinks, {i: ARITY[9 if i == getattr(b, "_arity_of_reused", None) else i][1] for i in live if i != 0})
     alinks = [store.Link(True, 1, 0, 2, 1)] if P(True, False) else store.sym_links(1, 3, tag="al")
     a, anodes = store.make_store(3, alinks)
     if sym.concretize(sym.bool("A_has_freed_index")):
         # A deleted a node earlier: the first inserted node reuses its index (and must not inherit anything from it)
-        gone = a.add_node(store.node_op(7), num_outs=sym.concretize(sym.int("freed.count", 0, 2)), metadata={"stale": True})
-        a.delete_node(gone)
+        # (two freed indices, so that B's root and its first child both land on a reused index)
+        k = sym.concretize(sym.int("freed.count", 0, 2))
+        gone = [a.add_node(store.node_op(7), num_outs=k, metadata={"stale": True}) for _ in range(2)]
+        for g in gone:
+            a.delete_node(g)
     par = anodes[sym.concretize(sym.int("parent", 0, P(1, 2)))]
     a_before = [(n.idx, a[n].op, a[n].parent, [c.idx for c in a.children(n)]) for n in a]
     b_nodes_before = [(n.idx, b[n].op, b[n].parent, [c.idx for c in b.children(n)], dict(b[n].metadata)) for n in b]
     mapping = a.insert_hugr(b, par)
     sym.check("mapping_domain_is_B_nodes", sorted(k.idx for k in mapping) == live)
     new = [v.idx for v in mapping.values()]
-    sym.check("mapping_injective_onto_fresh_nodes", len(set(new)) == len(new) and all(i >= 3 for i in new))
+    sym.check("mapping_injective_onto_fresh_nodes", len(set(new)) == len(new) and all(i >= 3 for i in new))  # (3, 4 may be reused freed indices)
     sym.check("handles_in_mapping_carry_the_count", all(v._num_out_ports == b[k]._num_outs or v._num_out_ports is None for k, v in mapping.items()))
     mu = {k.idx: v for k, v in mapping.items()}
     ok = True
